@@ -3,7 +3,7 @@ import re
 
 MODULES = ["contracts.c01_analysis", "contracts.c01_converter", "contracts.c11_eager", "contracts.c01_operators", "contracts.c12_anylen:autocast",
            # anchor: OnnxFunction._to_model_proto — called functions collected, opset imports merged (contract shared with C02)
-           "contracts.c02_modelproto:to_model_proto"]
+           "contracts.c02_modelproto:to_model_proto", "contracts.c01_calling"]
 
 
 def INCLUDE(name):
@@ -159,8 +159,41 @@ sys.exit(1 if bad else 0)
 '''
 
 
+KEYWORD_INPUT = '''
+import sys, os, tempfile, importlib.util
+import numpy as np
+src = """
+from typing import Optional
+from onnxscript import script, FLOAT
+from onnxscript import opset18 as op
+
+@script(default_opset=op)
+def clip3(x: FLOAT[3], lo: Optional[FLOAT] = None, hi: Optional[FLOAT] = None) -> FLOAT[3]:
+    return op.Clip(x, lo, hi)
+
+@script(default_opset=op)
+def f(X: FLOAT[3], H: FLOAT) -> FLOAT[3]:
+    return clip3(X, hi=H)
+"""
+d = tempfile.mkdtemp(); path = os.path.join(d, "kw_case.py"); open(path, "w").write(src)
+spec = importlib.util.spec_from_file_location("kw_case", path); mod = importlib.util.module_from_spec(spec); sys.modules["kw_case"] = mod; spec.loader.exec_module(mod)
+import onnxruntime as ort
+x = np.array([-1, 1, 3], np.float32); h = np.array(2.0, np.float32)
+eager = np.asarray(mod.f(x, h))
+m = mod.f.to_model_proto()
+graph = ort.InferenceSession(m.SerializeToString(), providers=["CPUExecutionProvider"]).run(None, {"X": x, "H": h})[0]
+plain = np.minimum(x, h)
+if not (np.array_equal(eager, graph) and np.array_equal(graph, plain)):
+    print(f"clip3(X, hi=H) with lo omitted: call node {[(n.op_type, list(n.input)) for n in m.graph.node]}; eager {eager.tolist()}, graph {graph.tolist()}, plain Python {plain.tolist()}")
+    sys.exit(1)
+sys.exit(0)
+'''
+
+
 def replay(ob):
     name = ob["name"]
+    if name.startswith("C01.calling."):
+        return KEYWORD_INPUT
     if "constant_if.name_is_not_a_parameter" in name:
         return PARAM_SHADOWS_GLOBAL
     if name.startswith("C02.to_model_proto."):
